@@ -1,7 +1,9 @@
-package delta_test
+package scratch
+
+// D96 (C04): failed before the fix commit; see known_findings.json.
 
 // Pre-existing (unchanged tree). Place in encoding/delta and run:
-//   go test -vet=off -count=1 -timeout 120s -run TestPreexistingDeltaLengthByteArrayZeroValues ./encoding/delta/
+//   go test -vet=off -count=1 -timeout 120s -run TestD96EmptyDeltaLengthByteArray ./encoding/delta/
 //
 // C04, length 0: DELTA_LENGTH_BYTE_ARRAY.EncodeByteArray of an empty sequence
 // given as an empty offsets slice produces 0 bytes. Per the format a
@@ -20,7 +22,7 @@ import (
 	"github.com/parquet-go/parquet-go/encoding/plain"
 )
 
-func TestPreexistingDeltaLengthByteArrayZeroValues(t *testing.T) {
+func TestD96EmptyDeltaLengthByteArray(t *testing.T) {
 	for _, e := range []encoding.Encoding{
 		new(plain.Encoding),
 		new(delta.ByteArrayEncoding),
